@@ -140,6 +140,23 @@ CHECKS = {
    design_ref='DESIGN.md section 6 (C16)',
    note='Trusted: TLC, harness printer and decoder. One known finding (numeric-looking selectors are altered) excused only for sources containing such a selector.',
    technique='TLA+ spec (Asm.tla) + TLC enumeration + trace validation of the real assembler'),
+ 'C10': dict(
+   category='model_checking',
+   text='KvStore.tla models a backend handle (sticky prefix / session / language, lock mask, seal) over the keyed map LogicalKey -> value with translation fallback; TLC checks '
+        'LockedPutNoChange, SealIrreversible, ReadYourWrite, OnlyPutChanges over all operation sequences to a bound and emits them; every behaviour and random well-formed histories '
+        '(incl. Dump on the filesystem backend) run on mem, fs (text keys), fs (binary keys) and the Postgres driver over the fake, and TLC judges every real operation against the model '
+        'folded over the recorded sequence - so the four backends are compared with the model and thereby with each other.',
+   design_ref='DESIGN.md section 6 (C10)',
+   note='Trusted: TLC, recorder, fakepg. gdbm cannot be built here. Dump judged for non-translatable types with a session selected.',
+   technique='TLA+ spec (KvStore.tla) + TLC model checking + trace validation of four real backends'),
+ 'C11': dict(
+   category='model_checking',
+   text='The storage key is modelled as a character sequence; TLC checks injectivity of the encoding over all (type, session, key) with adversarial strings up to length 2 (separators, path '
+        'elements, type-prefix characters) and emits every colliding pair; each pair is replayed on the real backends as write-under-a / read-under-b, random adversarial histories are recorded, and '
+        'TLC checks on every real read / listing that the returned value was written under the same data type and session (unique values carry their provenance).',
+   design_ref='DESIGN.md section 6 (C11)',
+   note='Trusted: TLC, recorder provenance table. Three known findings (dot ambiguity, fs path cleaning, fs legacy name) matched by predicates over the recorded history; any other cross-read fails the check.',
+   technique='TLA+ spec + TLC injectivity enumeration + trace validation with value provenance on four real backends'),
 }
 
 NOT_YET = 'check not built yet in this round (planned: DESIGN.md section 6); not claimed until its machinery exists'
